@@ -24,7 +24,7 @@ var c16Ops = []string{
 	". + [9]", "[9] + .", "flatten", "group_by(.a)", "to_entries", "with_entries(.)", "from_entries", `pick(["a"])`, "pick([1])", `omit(["a"])`, "omit([0])",
 	".a", ".ab", ".[0]", ".[1]", ".[]", `{"z": .}`, "(. as $x | $x)", "del(.[0])", "del(.a)", `. * {"c": 1}`, `. + {"c": 1}`,
 	"(.a = (.a | sort))", "(.a |= reverse)", "(.[0] = .[1])", "(.b = .a)", "(.a |= . + [9])", "(.[1] |= 7)", "unique_by(.a)", "[.[] | select(. != 1)]",
-	"map_values(.)", "to_entries | from_entries", "sort_keys(.)", "with(.a; . = 3)", ".. | select(kind == \"seq\")",
+	"map_values(.)", "to_entries | from_entries", "del(.[2])", "del(.a[0])", "del(.[0][0])", "(.c = .a)", "sort_keys(.)", "with(.a; . = 3)", ".. | select(kind == \"seq\")",
 }
 
 func c16Docs(thorough bool) []*val.V {
@@ -40,6 +40,8 @@ func c16Docs(thorough bool) []*val.V {
 		`[3, 1, 2]`, `[[2, 1], [0]]`, `{"a": [3, 1, 2], "b": 1}`, `[{"a": 2}, {"a": 1}]`, `[{"a": 1, "b": 0}, {"a": 1}, {"a": 0}]`,
 		`{"a": {"ab": 1, "a": 0}, "ab": [1]}`, `[{"key": "a", "value": 1}, {"key": "b", "value": [1, 0]}]`, `[1, [2, [3]], 1]`,
 		`{"a": [{"a": 1}, {"a": 0}], "ab": 2}`,
+		// two-digit indices: index arithmetic done on strings ("10" < "2") only shows from 11 elements on
+		`[0, 1, 2, 3, 4, 5, 6, 7, 8, 9, 10, 11]`, `{"a": [0, 1, 2, 3, 4, 5, 6, 7, 8, 9, 10, 11], "b": [1, 0]}`,
 	}
 	for _, h := range hand {
 		var x interface{}
